@@ -363,26 +363,7 @@ def _mcct(case):
     # definition of the score on the label-set side
     # "internal split": the statement does not say whether a rooted clade of all-but-one
     # taxon counts; both conventions are accepted (the library's two scoring functions differ)
-    want_scores = []
-    for ss in split_sets:
-        tot = [0.0, 0.0, 0.0, 0.0]  # conventions: root edge in/out x all-but-one clades in/out
-        for s in ss:
-            root_split = (s == Q.split_of_clade(L, L, r))
-            f = float(exp[s])
-            v = math.log(f) if use_log else f
-            if ext:
-                for cv in range(4):
-                    tot[cv] += v
-            elif root_split:
-                tot[0] += v
-                tot[1] += v
-            elif not Q.is_trivial(s, L, r):
-                tot[0] += v
-                tot[2] += v
-                if not r or len(s) < len(L) - 1:
-                    tot[1] += v
-                    tot[3] += v
-        want_scores.append(tot)
+    want_scores = [Q.score_conventions(ss, exp, L, r, use_log, ext) for ss in split_sets]
     nts = [Q.nontrivial(ss, L, r) for ss in split_sets]
     tl = _tl(ns, trees)
     fails = []
@@ -396,7 +377,7 @@ def _mcct(case):
         return fails
     if idx is None or not (0 <= idx < len(scores)) or scores[idx] != max(scores):
         fails.append(("mcct.argmax", "reported index %r, scores %r" % (idx, scores)))
-    if not any(all(Q.approx(a, b[cv]) for a, b in zip(scores, want_scores)) for cv in range(4)):
+    if not Q.scores_match(scores, want_scores):
         fails.append(("mcct.score-definition", "reported scores %r, %s over the internal splits of each tree = %r"
                       % (scores, "sum of log support" if use_log else "sum of support", [b[0] for b in want_scores])))
     best = max(scores)
